@@ -215,6 +215,23 @@ func specParsed(p *FrameParser) bool {
 //@ ensures[C10.afp.rm.fail]  ncalls(RemoveBPF) > old(ncalls(RemoveBPF)) && lastres(RemoveBPF, 0) != nil ==> ret0 != nil && wraps(ret0, lastres(RemoveBPF, 0))
 //@ modifies nothing
 
+// Sending a packet: whatever fails — the descriptor write loop or the send call itself (other than would-block, which is
+// retried) — comes back wrapped. getSockAddr copies the address bytes into a sockaddr (by-value arrays: assumed).
+//@ assume func getSockAddr
+//@ trusted address-to-sockaddr conversion over by-value byte arrays (outside the modelled subset); pure
+//@ ensures[sa.xor]     (ret1 == nil) == (ret0 != nil)
+//@ ensures[sa.class]   ret1 != nil ==> noRepoErr(ret1)
+//@ modifies nothing
+
+//@ func (*sinkLinux).WriteTo
+//@ safety C10
+//@ requires[pre.nonnil]          p != nil && p.rawConn != nil
+//@ ensures[C10.sink.write.addr]  ncalls(getSockAddr) == old(ncalls(getSockAddr)) + 1 && (lastres(getSockAddr, 1) != nil ==> ret0 != nil && ncalls(RawConn.Write) == old(ncalls(RawConn.Write)))
+//@ ensures[C10.sink.write.ctl]   ncalls(RawConn.Write) > old(ncalls(RawConn.Write)) && lastres(RawConn.Write, 0) != nil ==> ret0 != nil && wraps(ret0, lastres(RawConn.Write, 0))
+//@ ensures[C10.sink.write.send]  ncalls(Sendto) > old(ncalls(Sendto)) && lastres(Sendto, 0) != nil ==> ret0 != nil && wraps(ret0, lastres(Sendto, 0))
+//@ ensures[C10.sink.write.class] ret0 != nil ==> noRepoErr(ret0)
+//@ modifies nothing
+
 // ---- C09 at the capture boundary (linux): what the AF_PACKET socket delivers is arbitrary bytes. A frame that cannot
 // even carry an ethernet header is skipped like a non-IP frame; the only errors Read reports are the socket's own.
 //@ func stripEthernetHeader
